@@ -26,6 +26,7 @@ type miniEval struct {
 	dyn     func(x ast.Expr) string                  // dynamic type (last name component) of a type-switch operand
 	ctx     *core.Ctx                                // when set, calls of small pure module functions of integers are evaluated in place
 	tables  map[string][]ast.Expr                    // locals that name a row of a constant table
+	methods bool                                     // evaluate parameterless methods of the same package in place, with the same hooks
 	depth   int
 	lens    map[string]bool // variables that stand for a slice, valued by its LENGTH
 	steps   int             // loop iterations executed (bounded)
@@ -186,6 +187,9 @@ func (e *miniEval) expr(x ast.Expr) int64 {
 			}
 		}
 		if v, ok := e.inlinePure(y); ok {
+			return v
+		}
+		if v, ok := e.inlineMethod(y); ok {
 			return v
 		}
 		return e.fail("call " + core.ExprStr(y))
@@ -769,4 +773,34 @@ func (e *miniEval) tableRow(x ast.Expr) ([]ast.Expr, bool) {
 		}
 	}
 	return []ast.Expr{}, true
+}
+
+// inlineMethod evaluates `recv.helper()` - a parameterless method of the same package - by running
+// its body with the hooks of the caller (the helper reads the same object).
+func (e *miniEval) inlineMethod(call *ast.CallExpr) (int64, bool) {
+	if !e.methods || e.ctx == nil || e.depth > 3 || len(call.Args) != 0 {
+		return 0, false
+	}
+	f, ok := core.Callee(e.pk, call).(*types.Func)
+	if !ok || f.Pkg() == nil || f.Pkg().Path() != e.pk.PkgPath {
+		return 0, false
+	}
+	sig := f.Type().(*types.Signature)
+	if sig.Recv() == nil || sig.Results().Len() != 1 {
+		return 0, false
+	}
+	d := e.ctx.P.FindDecl(core.Rel(f.FullName()))
+	if d == nil || d.Decl.Body == nil {
+		return 0, false
+	}
+	sub := &miniEval{pk: d.Pkg, env: map[string]int64{}, ctx: e.ctx, depth: e.depth + 1, methods: true, call: e.call, hook: e.hook, tuple: e.tuple, rng: e.rng, dyn: e.dyn}
+	st, rets := sub.run(d.Decl.Body.List)
+	if sub.unknown != "" {
+		e.fail(sub.unknown)
+		return 0, false
+	}
+	if st != miniReturn || len(rets) != 1 {
+		return 0, false
+	}
+	return rets[0], true
 }
